@@ -107,6 +107,11 @@ Definition rd_lz77 (c : N) : M N :=
   else mfail WInvalidInput.
 
 (* ---------------------------------------------------------------- small pieces *)
+(* Transform::transformed_width: pixels packed per colour-indexed pixel, by palette size
+     match image.width.get() { 0..=2 => 8, 3..=4 => 4, 5..=16 => 2, 17.. => 1 }
+   (compared with the table regenerated from the source in Webp/TableProofs.v) *)
+Definition color_index_block (len : N) : N := if len <=? 2 then 8 else if len <=? 4 then 4 else if len <=? 16 then 2 else 1.
+
 (* fn len_in_blocks(len: NonZeroU32, block_size: u16) = NonZeroU32::new(div_ceil(len, block_size)).unwrap_or_else(unreachable) *)
 Definition len_in_blocks (len bs : N) : res N :=
   let q := len / bs in
@@ -319,7 +324,7 @@ Definition read_transform (ty width height : N) : M N :=
     len_minus_one <~ rd 32 8 ;;
     let len := N.min (1 + len_minus_one) (2 ^ 32 - 1) in               (* NonZeroU32::MIN.saturating_add *)
     _ <~ read_entropy_image RPlain len 1 ;;
-    let bs := if len <=? 2 then 8 else if len <=? 4 then 4 else if len <=? 16 then 2 else 1 in
+    let bs := color_index_block len in
     mlift (len_in_blocks width bs)
   else mpanic 1.
 
